@@ -78,9 +78,12 @@ def make_source(R, rng, d, i):
                          else rng.randrange(hi + 1) for _ in range(n)], dtype=dt)
     arr = vals.reshape(shape + ([nch] if nch > 1 else []))
     nii = os.path.join(d, "src.nii")
-    pipeline.write_nifti(nii, arr)
     out = os.path.join(d, "src")
     kind = rng.choice(["deep-gz", "flat", "flat-gz", "deep", "sharded"])
+    vox = (1.0, 1.0, 1.0)
+    if kind != "sharded" and rng.random() < 0.5:     # anisotropic voxels -> anisotropic chunk sizes
+        vox = rng.choice([(1.0, 1.0, 2.0), (1.0, 1.0, 4.0), (2.0, 1.0, 1.0), (1.0, 4.0, 1.0), (0.5, 1.0, 2.0)])
+    pipeline.write_nifti(nii, arr, affine=np.diag(list(vox) + [1.0]))
     gen = ["--generate-info"]
     if kind == "sharded":
         gen += ["--sharding", rng.choice(["1,1,0", "2,1,1", "0,2,0"]), "--no-gzip"]
@@ -201,6 +204,8 @@ def _convert(R, rng, d, j, src_dir, info, src_acc, src_kind, src_scales):
     R.case(case, nontrivial=nontriv)
     R.count(f"{src_kind}->{dst_kind}" + (":http" if via_http else "") + (":copy-info" if copy_info else ""))
     R.count(f"dtype:{src_dt}->{dinfo['data_type']}")
+    R.count("chunks:" + ("anisotropic" if any(len(set(x["chunk_sizes"][0])) > 1 for x in info["scales"]) else "cubic"))
+    R.count("dest-encodings:" + ("mixed" if len({x["encoding"] for x in dinfo["scales"]}) > 1 else "uniform"))
     if inproc and rc == 0:
         from harness.common import Atom
         scs = [[x["key"].encode(), x["size"], [list(c) for c in x["chunk_sizes"]], [0, 0, 0]]
